@@ -85,18 +85,65 @@ def gen_idle_case(rng: random.Random, tier: str, backends=('dict',)) -> dict:
                                    'at': rng.randint(0, 12), 'auto': True})
             steps.append({'actions': acts, 'faults': faults,
                           'sched_seed': maybe_seed(rng, 0.15)})
-        steps.append({'actions': [{'sess': i, 'kind': 'unhold'}
-                                  for i in idlers], 'sched_seed': None,
-                      'horizon': 3.0, 'idle_check': True})
+        mode = rng.choice(['quiet', 'quiet', 'race', 'stalled'])
         ends = []
         for i in idlers:
-            if rng.random() < 0.8:
+            if rng.random() < 0.8 or mode != 'quiet':
                 ends.append({'sess': i, 'kind': 'done'})
             else:
                 ends.append({'sess': i, 'kind': 'done',
                              'line': rng.choice(['DONE X', 'NOOP', 'done ',
                                                  '', 'a1 DONE'])})
-        steps.append({'actions': ends, 'sched_seed': None, 'idle_end': True})
+        if mode == 'quiet':
+            steps.append({'actions': [{'sess': i, 'kind': 'unhold'}
+                                      for i in idlers], 'sched_seed': None,
+                          'horizon': 3.0, 'idle_check': True})
+            steps.append({'actions': ends, 'sched_seed': None,
+                          'idle_end': True})
+            continue
+
+        def burst():
+            nonlocal hi, maxn
+            acts = []
+            for w in rng.sample(writers, rng.randint(1, len(writers))):
+                act = writer_action(rng, w, tokens, hi, maxn)
+                if act['kind'] == 'append':
+                    hi += len(act['msgs'])
+                    maxn += len(act['msgs'])
+                elif act['kind'] in ('copy', 'move') \
+                        and act['mailbox'] == 'INBOX':
+                    hi += 2
+                acts.append(act)
+            return acts
+        if mode == 'race':
+            # DONE and another session's change arrive together: the change
+            # landed during IDLE and must not be lost with it
+            steps.append({'actions': [{'sess': i, 'kind': 'unhold'}
+                                      for i in idlers], 'sched_seed': None})
+            acts = burst() + ends
+            rng.shuffle(acts)
+            steps.append({'actions': acts, 'sched_seed': rng.getrandbits(32),
+                          'idle_end': True})
+        else:
+            # the idler stops reading while a notification is being written,
+            # sends DONE into the stall and only then reads again
+            steps.append({'actions': [{'sess': i, 'kind': 'unhold'}
+                                      for i in idlers], 'sched_seed': None})
+            steps.append({'actions': burst(), 'faults': [
+                {'kind': 'hold', 'sess': i, 'at': rng.randint(0, 6),
+                 'auto': False} for i in idlers],
+                'sched_seed': maybe_seed(rng, 0.3)})
+            if rng.random() < 0.5:
+                steps.append({'actions': burst(),
+                              'sched_seed': maybe_seed(rng, 0.3)})
+            steps.append({'actions': ends, 'sched_seed': None})
+            steps.append({'actions': [{'sess': i, 'kind': 'unhold'}
+                                      for i in idlers], 'sched_seed': None,
+                          'horizon': 3.0, 'idle_end': True, 'ends': ends})
+        # afterwards a NOOP must bring every former idler up to date
+        steps.append({'actions': [{'sess': i, 'kind': 'noop'}
+                                  for i in idlers], 'sched_seed': None,
+                      'converge': True})
     return {'config': cfg, 'steps': steps, 'idlers': idlers}
 
 
@@ -154,7 +201,7 @@ def check_idlers(ctx, step) -> None:
 
 
 def check_idle_end(ctx, step, cmds) -> None:
-    for act in step['actions']:
+    for act in step.get('ends') or step['actions']:
         if act['kind'] != 'done':
             continue
         cl = ctx.clients.get(act['sess'])
@@ -194,7 +241,14 @@ class C16(Profile):
             'span that overlaps later changes; then 3 virtual seconds with '
             'no input at all, after which each idler\'s shadow view must '
             'equal a probe dump; then DONE (or a garbage line) must yield OK '
-            '(BAD). Non-trivial = writers acted while a session idled.')
+            '(BAD). A quarter of the idle rounds instead send DONE together '
+            'with another session\'s change (seeded arrival order), another '
+            'quarter send DONE while the idler has stopped reading in the '
+            'middle of a notification and resume reading afterwards: DONE '
+            'must still be answered and a following NOOP must bring the '
+            'session\'s view to the mailbox\'s contents (no change that '
+            'landed during IDLE is lost). '
+            'Non-trivial = writers acted while a session idled.')
     assumptions = C01.assumptions + [
         'liveness bound: 3 virtual seconds after the last change with no '
         'stimulus (dict has no timer on this path; maildir polls at 1 s)']
@@ -211,6 +265,9 @@ class C16(Profile):
                 check_idlers(ctx, step)
             if step.get('idle_end'):
                 check_idle_end(ctx, step, cmds)
+            if step.get('converge'):
+                from .c02 import compare_views
+                compare_views(ctx, 'C16', issued=cmds)
         res = run_concurrent(case, 'C16', trace, after_step=after,
                              keep=lambda v: v['property'] == 'C01'
                              and v.get('during_idle'))
